@@ -164,6 +164,69 @@ def _lin_eq(a, b, cons):
     return entails(cons, Con(a - b, "=="))
 
 
+def analyse_legacy(proj, res):
+    """The older public driver `solve_legacy` (no stop criteria, no monitors), interpreted by the same
+    path-sensitive engine with its loops unrolled: every step it takes must be given a SCALAR time step
+    -- the minimum over cells of a time-step array computed from the field's CURRENT state (no step in
+    between), or a shorter positive step onto a save time.  (C18: "a solve uses the minimum over cells as
+    its global step"; C01: "one global time step".)"""
+    cls = proj.cls("integration.timemodel")
+    f = proj.resolve(cls, "solve_legacy")
+    if f is None:
+        return
+    names = f.params[1:]
+    if names[:3] != ["f", "condition", "tsave"] and len(names) < 3:
+        res.und("DRV-DT-MIN", "solve_legacy: parameters %s not recognised" % names, f.node.lineno)
+        return
+    drv = Driver(proj, cls)
+    drv.main_loop = None
+    s, fld = initial_state()
+    vals = [fld, Opq("cfl"), SeqSym("tsave")] + [None] * (len(names) - 3)
+    s.env = {f.params[0]: SelfRef()}
+    s.env.update(dict(zip(names, vals)))
+    try:
+        outs = drv.block(f.node.body, [s], f)
+    except AnalysisError as e:
+        res.und("DRV-DT-MIN", "solve_legacy not interpretable: %s" % e, f.node.lineno)
+        return
+    nstep = 0
+    bad_once = set()
+
+    def bad(text, ln, key):
+        if key not in bad_once:
+            bad_once.add(key)
+            res.bad("DRV-DT-MIN", "solve_legacy: " + text, ln, key)
+    for o in outs:
+        last_ts = None
+        for ev in o.events:
+            if ev[0] == "timestep":
+                last_ts = ev
+            elif ev[0] == "step":
+                nstep += 1
+                fid, dtv, cons, ln, nbefore = ev[1], ev[2], ev[3], ev[4], ev[6]
+                if dtv[0] == "array":
+                    bad("a step is given the per-cell time-step array `%s`: every cell advances by its own step although no local-time-step directive exists here (not one global step: the conserved integrals drift and the cells are at different times)" % dtv[1], ln, "legacy-array")
+                    continue
+                if last_ts is None:
+                    bad("a step is taken before any time step was computed", ln, "legacy-nots")
+                    continue
+                if last_ts[1] != fid or last_ts[2] != nbefore:
+                    bad("the time step used by a step was computed from another state of the field (%s step(s) earlier): not CFL*dx/lambda of the current state" % (nbefore - last_ts[2] if last_ts[1] == fid else "another field,"), ln, "legacy-stale")
+                    continue
+                m = Lin.sym("min(%s)" % last_ts[3])
+                reduces = [x for x in o.events if x[0] == "reduce" and x[2] == last_ts[3]]
+                if any(x[1] != "min" for x in reduces):
+                    bad("the global time step is the %s over cells, not the minimum" % reduces[0][1], reduces[0][3], "legacy-reduce")
+                    continue
+                if not (_lin_eq(dtv[1], m, cons) or (entails(cons, Con(m - dtv[1], ">=")))):
+                    bad("step length %r is neither min(dt) of the current state nor a shorter step onto a save time" % (dtv[1],), ln, "legacy-notmin")
+    if not bad_once:
+        if nstep:
+            res.ok("DRV-DT-MIN", "solve_legacy: on all %d explored paths every step gets a scalar: the minimum over cells of the time step of the current state, or a shorter step onto the save time" % len(outs), f.node.lineno)
+        else:
+            res.und("DRV-DT-MIN", "solve_legacy: no step found on the explored paths", f.node.lineno)
+
+
 def analyse_solve(proj):
     """returns Result with all driver rules"""
     res = Result()
@@ -272,6 +335,7 @@ def analyse_solve(proj):
             res.bad("DRV-STOP", "an exception is raised inside the main loop", fsolve.node.lineno, "raise-in-loop")
     _iteration_rules(res, drv, fsolve, f, live)
     _epilogue_rules(res, drv, fsolve, f, live)
+    analyse_legacy(proj, res)
     return res, info
 
 
